@@ -227,6 +227,31 @@ def _stratified(g, paths, budget, rnd, depth=3):
     return out
 
 
+class RawGraph:
+    """Adapter for harnesses that keep the dumped node labels as text (ids -> raw label, edges as (src, dst))."""
+
+    def __init__(self, raw, edges, init):
+        self.raw, self.edges, self.init = raw, list(edges), list(init)
+
+    def tree_paths(self):
+        g = Graph({n: None for n in self.raw}, [(a, b, "") for a, b in self.edges], self.init)
+        p = g.bfs_paths()
+        self._parent = g._parent
+        return p
+
+    def edge_paths(self):
+        if not hasattr(self, "_parent"):
+            self.tree_paths()
+        return _edge_paths(self._parent, self.edges)
+
+    def signature(self, nid):
+        raw = self.raw[nid]
+        i = raw.find("last")
+        seg = raw[i:] if i >= 0 else raw
+        m, o = LazyGraph._OPOUT.search(seg), LazyGraph._OUT.search(seg)
+        return (m.group(1) if m else "?", o.group(1) if o else "?")
+
+
 def choose_paths(g, paths, budget, rnd, depth=3):
     """The paths a budgeted replay walks.  `paths` = the root-to-leaf paths of the BFS spanning tree (every node = every (event,
     resulting state) at least once).  The non-tree edges - the same event after ANOTHER history, e.g. after a rejected call that leaves
